@@ -81,6 +81,11 @@ def classOf : DErr → String
   | .unmodelled => "UNMODELLED"
   | _ => "other"
 
+/-- The same with the position an OpcodeError carries. -/
+def classOfP : DErr → String
+  | .opcode k pos => s!"opcode:{k.toNat}@{pos}"
+  | e => classOf e
+
 def showDec (inpLen : Nat) (r : M GoVal × DState × Bytes) : String :=
   match r with
   | (.ok v, st, rest) => s!"OK {renderResolved st v} {inpLen - rest.length}"
@@ -90,17 +95,18 @@ def runDec (mc : MCfg) (hook : Hook) (inp : Bytes) : String :=
   showDec inp.length (decode mc hook {} inp)
 
 /-- Stream decoding: call Decode until it fails; results joined by ` | `. -/
-partial def runDecs (mc : MCfg) (hook : Hook) (st : DState) (inp : Bytes) (acc : List String) (n : Nat) : String :=
+partial def runDecs (mc : MCfg) (hook : Hook) (st : DState) (inp : Bytes) (acc : List String) (n : Nat)
+    (cls : DErr → String := classOf) : String :=
   if n == 0 then " | ".intercalate acc.reverse else
   match decode mc hook st inp with
   | (.ok v, st', rest) =>
-    runDecs mc hook st' rest (s!"OK {renderResolved st' v} {inp.length - rest.length}" :: acc) (n - 1)
+    runDecs mc hook st' rest (s!"OK {renderResolved st' v} {inp.length - rest.length}" :: acc) (n - 1) cls
   | (.error e, st', rest) =>
     -- after an end-of-input error the stream is over; after any other error the next call goes on where
     -- this one stopped (how far that is comparable with the implementation is the caller's business)
     if e == .eof || e == .unexpectedEOF || (match e with | .panic _ => true | _ => false) then
-      " | ".intercalate (s!"ERR {classOf e}" :: acc).reverse
-    else runDecs mc hook st' rest (s!"ERR {classOf e}" :: acc) (n - 1)
+      " | ".intercalate (s!"ERR {cls e}" :: acc).reverse
+    else runDecs mc hook st' rest (s!"ERR {cls e}" :: acc) (n - 1) cls
 
 /-- One letter per cut position k = 0 … len-1: the outcome of decoding the first k bytes. -/
 def cutLetter (r : M GoVal × DState × Bytes) : Char :=
@@ -300,6 +306,17 @@ def handle (line : String) : String :=
   | ["decs", cfg, hook, hex] =>
     match parseCfg cfg, parseHook hook, bytesOfHex? hex with
     | some c, some h, some inp => runDecs (goCfg c) h {} inp [] 64
+    | _, _, _ => "BADCASE"
+  | ["decsp", cfg, hook, hex] =>      -- the same, OpcodeError printed with its position
+    match parseCfg cfg, parseHook hook, bytesOfHex? hex with
+    | some c, some h, some inp => runDecs (goCfg c) h {} inp [] 64 classOfP
+    | _, _, _ => "BADCASE"
+  | ["decp", cfg, hook, hex] =>
+    match parseCfg cfg, parseHook hook, bytesOfHex? hex with
+    | some c, some h, some inp =>
+      match decode (goCfg c) h {} inp with
+      | (.ok v, st, rest) => s!"OK {renderResolved st v} {inp.length - rest.length}"
+      | (.error e, _, _) => s!"ERR {classOfP e}"
     | _, _, _ => "BADCASE"
   | "enc" :: proto :: su :: rh :: toks =>
     match proto.toInt?, parseRefHook rh, parseValue? toks with
